@@ -1,4 +1,5 @@
 import PandoraModel.Properties.C11
+import PandoraModel.Properties.C11Kernels
 open Pandora.C11
 #print axioms armCoded_eq_armRef
 #print axioms crossSupport_eq_crossRef
@@ -24,3 +25,11 @@ open Pandora.C11
 #print axioms median3_isNan
 #print axioms filteredL_isNan
 #print axioms filteredR_isNan
+-- the cross-support kernel regenerated from the Python source (Generated/KernelsCbca.lean, T14) is the hand model
+-- (same list as Audit/C11Kernels.lean)
+#print axioms Pandora.C11Kernels.forLoop_arm
+#print axioms Pandora.C11Kernels.jump_eq
+#print axioms Pandora.C11Kernels.crossSupport_generated_eq
+#print axioms Pandora.C11Kernels.crossSupport_generated_eq_source
+#print axioms Pandora.C11Kernels.crossSupport_generated_spec
+#print axioms Pandora.C11Kernels.crossSupport_generated_total
